@@ -3,9 +3,10 @@
    and the `interval` tactic proves that the value returned by the Go code is within the tolerance. *)
 From Coq Require Import List Bool NArith ZArith QArith Reals.
 From Interval Require Import Tactic.
+From Coq.Strings Require Import Byte.
 Import ListNotations.
 From GA.Base Require Import Bytes Align.
-From GA.Model Require Import Stats Entropy.
+From GA.Model Require Import Stats Entropy Pssm.
 From GA.Corr Require Import C14.
 
 Definition cert_counts (c : case) : list Z :=
@@ -30,4 +31,38 @@ Ltac cert_tac :=
       change (Rabs (entropy_of l - v) <= tol);
       cbv [entropy_of total_of fold_right map];
       interval with (i_prec 70)
+  end.
+
+(* ---- PSSM entries ----------------------------------------------------------------------------- *)
+(* (mode, ratio, positive site frequencies, alphabet size) of the entry (character, site) *)
+Definition pssm_inputs (c : case) (ch : byte) (site : nat) : option (Z * Q * list Q * Z) :=
+  let rs := unrows (c_in c) in
+  match c_op c with
+  | OpPssm lg pc norm =>
+      match pssm_ratio rs (c_alpha c) norm pc ch site with
+      | Some x =>
+          let k := Z.of_nat (length (pssm_alphabet (c_alpha c))) in
+          if Z.eqb norm PSSM_NORM_LOGO then Some (2%Z, x, site_freqs rs (c_alpha c) pc site, k)
+          else Some ((if lg then 1%Z else 0%Z), x, [], k)
+      | None => None
+      end
+  | _ => None
+  end.
+
+Definition cert_pssm (c : case) (ch : byte) (site : nat) (v tol : R) : Prop :=
+  match pssm_inputs c ch site with
+  | Some (mode, x, fs, k) => Rabs (pssm_real mode x fs k - v) <= tol
+  | None => False
+  end.
+
+Ltac cert_pssm_tac :=
+  match goal with
+  | |- cert_pssm ?c ?ch ?site ?v ?tol =>
+      let i := eval vm_compute in (pssm_inputs c ch site) in
+      match i with
+      | Some (?mode, ?x, ?fs, ?k) =>
+          change (Rabs (pssm_real mode x fs k - v) <= tol);
+          cbv [pssm_real bits_entropy log2 fold_right Z.eqb Pos.eqb Q2R Qnum Qden];
+          interval with (i_prec 70)
+      end
   end.
